@@ -36,13 +36,17 @@ ELIGIBLE = {
     "read_p": ("getter:p",), "set_p": ("setter:p",), "read_cp": ("getter:cp",),
     "items": ("validator:items",), "d": ("validator:d",), "s": ("validator:s",),
     "tl": ("validator:tl",), "set_sup": ("factory:1", "factory:2"),
-    "set_dv": ("validator:v",), "set_child": (), "reg": (), "unreg": (), "probe": (),
+    "set_dv": ("validator:v",), "set_child": (), "unreg": (), "probe": (),
     "del_items": (), "set_items": ("validator:items",),
     "set_sv": ("validator:sv",),
     "setq_v": ("validator:v",), "set_pv": ("validator:v",), "del_pv": (),
     "read_dp": ("getter:dp",),
     # 'del obj.dflt' with listeners computes the default to report it as the new value
     "del_dflt": ("default:dflt",),
+    # establishing the mutual link hands the value over: the partner validates it
+    "sync_sv": ("validator:sv",), "unsync_sv": (),
+    # an extended legacy name walks through 'lz', whose default method runs then
+    "reg": ("default:lz",), "read_lz": ("default:lz",),
 }
 
 # getters that traits itself runs while it notifies the listeners of a property
@@ -141,6 +145,10 @@ class World:
             env.point("default:dflt")
             return [1, 2]
 
+        def _lz_default(obj):
+            env.point("default:lz")
+            return obj.__dict__.get("partner")
+
         def _get_p(obj):
             env.point("getter:p")
             return obj.__dict__.get("_pv", 0) * 2
@@ -179,6 +187,7 @@ class World:
                 "partner": T.Instance(T.HasTraits), "dv": T.DelegatesTo("partner", prefix="v"),
                 "pv": T.PrototypedFrom("partner", prefix="v"),
                 "child": T.Instance(T.HasTraits),
+                "lz": T.Instance(T.HasTraits), "_lz_default": _lz_default,
                 "_dflt_default": _dflt_default, "_get_p": _get_p, "_set_p": _set_p,
                 "_get_cp": T.cached_property(_get_cp), "_get_dp": T.cached_property(_get_dp),
                 "_v_changed": _v_changed, "_dflt_changed": _dflt_changed,
@@ -264,6 +273,12 @@ class World:
             f = lambda: delattr(o, "pv") if "pv" in o.__dict__ else None   # noqa: E731
         elif k == "del_dflt":
             f = lambda: delattr(o, "dflt") if "dflt" in o.__dict__ else None   # noqa: E731
+        elif k == "read_lz":
+            f = lambda: getattr(o.lz, "uid", None)                # noqa: E731
+        elif k == "sync_sv":
+            f = lambda: self.objs[0].sync_trait("sv", self.objs[1], mutual=True)   # noqa: E731
+        elif k == "unsync_sv":
+            f = lambda: self.objs[0].sync_trait("sv", self.objs[1], mutual=True, remove=True)   # noqa: E731
         elif k == "read_dflt":
             f = lambda: plain(o.dflt)                             # noqa: E731
         elif k == "set_dflt":
@@ -345,6 +360,11 @@ class World:
                     vals[name] = plain(d[name])
             vals["sup"] = type(d.get("sup")).__name__
             vals["child"] = getattr(d.get("child"), "uid", None)
+            # (read-equivalence: a never-read 'lz' == one holding its default, the partner)
+            vals["lz"] = getattr(d.get("lz", d.get("partner")), "uid", None)
+            vals["sync"] = sorted((a, sorted(al for (_, al) in b))
+                                  for a, b in d.get("__sync_trait__", {}).items() if a and b)
+            vals["legacy"] = sorted(n for n, ls in d.get("__traits_listener__", {}).items() if ls)
             with warnings.catch_warnings():
                 warnings.simplefilter("ignore")
                 reads = {}
@@ -489,7 +509,7 @@ class Prop:
         nobj = deep(c, [2, 3], [4])
         handlers = []
         names_otc = ["v", "items", "items_items", "d_items", "s_items", "p", "cp", "dv", "u", "child",
-                     "dflt", "sup", "sv", "pv", "dp", "dp"]
+                     "dflt", "sup", "sv", "pv", "dp", "dp", "lz.v", "sv, lz.v", "lz.v"]
         names_obs = ["v", "items.items", "d.items", "s.items", "child.v", "cp", "p", "items", "u",
                      "child", "child.items.items", "sv", "pv", "dp", "dp"]
         for j in range(c.randint(2, 6)):
@@ -520,7 +540,7 @@ class Prop:
                 continue
             k = r.choice(["set_v", "set_v", "set_sv", "set_sv", "setq_v", "set_pv", "set_pv",
                           "del_pv", "read_dp", "set_u", "read_dflt", "set_dflt", "del_dflt", "read_fac",
-                          "read_p",
+                          "read_p", "read_lz", "sync_sv", "unsync_sv", "unsync_sv",
                           "set_p", "read_cp", "items", "items", "items", "del_items", "set_items",
                           "d", "d", "s", "s", "tl", "set_sup", "set_dv", "set_child", "reg", "unreg",
                           "probe"])
@@ -659,6 +679,11 @@ class Prop:
                 if not deciding and not site.startswith("h:"):
                     continue
                 for nth in range(1, count + 1):
+                    if k == "sync_sv" and nth >= 2 and not trace["config"].get("allow_k6"):
+                        # known finding K6: the second hand-over of a mutual sync_trait
+                        # (the value coming back) fails after the first one took effect
+                        env.probe("k6-guard-skip")
+                        continue
                     for exc in FAULT_EXCS:
                         if deciding and site == "validator:uA" and exc == "TraitError":
                             continue
@@ -842,7 +867,8 @@ class Prop:
                                                    rb["snap"][0][partner][0]["sv"]), i,
                             data=list(inj))
         partner_hids = {h["id"] for h in cfg["handlers"]
-                        if h["name"] == "sv" and h["o"] % cfg["nobj"] == partner}
+                        if "sv" in [x.strip() for x in h["name"].split(",")]
+                        and h["o"] % cfg["nobj"] == partner}
         want = sorted(repr(e) for e in ra["events_raw"] if e[0] not in partner_hids)
         if rb["events"] != want:
             raise Violation("C19.handlers-skipped",
@@ -850,11 +876,19 @@ class Prop:
                             "partner's own sv handlers)" % (what, rb["events"], want), i,
                             data=list(inj))
         realigned = False
+        linked = True          # (the fault hit a propagation: the link existed)
         for j in range(i + 1, len(ops)):
             a, b = A[j], B[j]
-            if (not realigned and ops[j]["k"] == "set_sv" and ops[j]["o"] % cfg["nobj"] < 2
-                    and a["key"][0] == "ok" and b["key"][0] == "ok"):
+            both_ok = a["key"][0] == "ok" and b["key"][0] == "ok"
+            if (not realigned and linked and ops[j]["k"] == "set_sv"
+                    and ops[j]["o"] % cfg["nobj"] < 2 and both_ok):
                 realigned = True
+            if ops[j]["k"] == "unsync_sv" and both_ok:
+                linked = False
+            if ops[j]["k"] == "sync_sv" and both_ok:
+                # (the hand-over makes the pair equal again - to whatever objs[0] holds,
+                # which need not be the fault-free value: not a realignment with twin A)
+                linked = True
             if a["key"] != b["key"]:
                 raise Violation("C19.suffix-differs",
                                 "%s: later op %d (%s) has outcome %r, on the fault-free twin %r"
